@@ -38,7 +38,8 @@ class Ctx:
         print("[%s %5.1fs] %s" % (self.id, time.time() - self.t0, msg), flush=True)
 
     def cleanup(self):
-        shutil.rmtree(self.scratch, ignore_errors=True)
+        if not os.environ.get('VERIF_KEEP'):
+            shutil.rmtree(self.scratch, ignore_errors=True)
 
 
 def run(cmd, env=None, timeout=None, cwd=None, stdin=None):
